@@ -1,4 +1,5 @@
 import Proofs.Lemmas.Exec
+import TeakraModel.Exec
 /-!
 # C08 — calls, returns, stack push/pop and context switches restore state exactly
 
@@ -127,53 +128,6 @@ theorem shadowSwap_involutive (r : Regs) : shadowSwapPure (shadowSwapPure r) = r
 
 /-! ## context store / restore (`cntx s`, `cntx r`, interrupt entry with context switch, `reti`/`retic`) -/
 
-/-- `RegisterState::ShadowStore` -/
-def saveFlags (r : Regs) : Regs :=
-  { r with
-    sh_flm := r.flm, sh_fvl := r.fvl, sh_fe := r.fe, sh_fc0 := r.fc0, sh_fc1 := r.fc1,
-    sh_fv := r.fv, sh_fn := r.fn, sh_fm := r.fm, sh_fz := r.fz, sh_fr := r.fr }
-
-/-- `RegisterState::ShadowRestore` -/
-def loadFlags (r : Regs) : Regs :=
-  { r with
-    flm := r.sh_flm, fvl := r.sh_fvl, fe := r.sh_fe, fc0 := r.sh_fc0, fc1 := r.sh_fc1,
-    fv := r.sh_fv, fn := r.sh_fn, fm := r.sh_fm, fz := r.sh_fz, fr := r.sh_fr }
-
-/-- `ContextStore` as a function on the register file. -/
-def contextStorePure (r : Regs) : Regs :=
-  let r := saveFlags r
-  let r := shadowSwapPure r
-  let r := if r.crep == 0 then { r with repcs := r.repc } else r
-  if r.ccnta == 0 then { r with a1s := r.a[1], b1s := r.b[1] }
-  else
-    let f := Alu.accFlags r.b[1]
-    { r with b := r.b.set 1 r.a[1], a := r.a.set 1 r.b[1], fz := f.fz, fm := f.fm, fe := f.fe, fn := f.fn }
-
-/-- `ContextRestore` as a function on the register file. -/
-def contextRestorePure (r : Regs) : Regs :=
-  let r := loadFlags r
-  let r := shadowSwapPure r
-  let r := if r.crep == 0 then { r with repc := r.repcs } else r
-  if r.ccnta == 0 then { r with a := r.a.set 1 r.a1s, b := r.b.set 1 r.b1s }
-  else { r with a := r.a.set 1 r.b[1], b := r.b.set 1 r.a[1] }
-
-/-- The monadic `contextStore` only touches the register file, as `contextStorePure`. -/
-theorem contextStore_run (c : Core) :
-    contextStore.run c = .ok ((), { c with regs := contextStorePure c.regs }) := by
-  unfold contextStore contextStorePure saveFlags shadowStore shadowSwap setAccAndFlag setAccFlag setAcc accIndex
-  simp only [run_bind, run_modifyRegs, run_getRegs, except_ok_bind, run_ite, run_pure]
-  generalize shadowSwapPure _ = r'
-  by_cases h1 : r'.crep = 0 <;> by_cases h2 : r'.ccnta = 0 <;> simp_all
-
-
-/-- The monadic `contextRestore` only touches the register file, as `contextRestorePure`. -/
-theorem contextRestore_run (c : Core) :
-    contextRestore.run c = .ok ((), { c with regs := contextRestorePure c.regs }) := by
-  unfold contextRestore contextRestorePure loadFlags shadowRestore shadowSwap
-  simp only [run_bind, run_modifyRegs, run_getRegs, except_ok_bind, run_ite, run_pure]
-  generalize shadowSwapPure _ = r'
-  by_cases h1 : r'.crep = 0 <;> by_cases h2 : r'.ccnta = 0 <;> simp_all
-
 /-- The part of the register file that `ShadowSwap` neither reads nor writes and that the context
 store/restore pair works on: flags, their one-way shadows, `repc`/`repcs`, the accumulators and
 their shadows, and the two control bits. -/
@@ -222,9 +176,16 @@ def setCtx (r : Regs) (n : CtxPart) : Regs :=
     repc := n.repc, repcs := n.repcs, a := n.a, b := n.b, a1s := n.a1s, b1s := n.b1s, crep := n.crep,
     ccnta := n.ccnta }
 
-private theorem setCtx_getCtx (r : Regs) : setCtx r (getCtx r) = r := by cases r; rfl
-private theorem setCtx_setCtx (r : Regs) (n m : CtxPart) : setCtx (setCtx r n) m = setCtx r m := by cases r; rfl
-private theorem getCtx_setCtx (r : Regs) (n : CtxPart) : getCtx (setCtx r n) = n := by cases n; rfl
+/-- Apply a function to the context part, leaving the rest alone. -/
+def ctxApply (g : CtxPart → CtxPart) (r : Regs) : Regs := setCtx r (g (getCtx r))
+
+theorem setCtx_getCtx (r : Regs) : setCtx r (getCtx r) = r := by cases r; rfl
+theorem setCtx_setCtx (r : Regs) (n m : CtxPart) : setCtx (setCtx r n) m = setCtx r m := by cases r; rfl
+theorem getCtx_setCtx (r : Regs) (n : CtxPart) : getCtx (setCtx r n) = n := by cases n; rfl
+
+theorem ctxApply_ctxApply (g h : CtxPart → CtxPart) (r : Regs) :
+    ctxApply g (ctxApply h r) = ctxApply (g ∘ h) r := by
+  unfold ctxApply; rw [getCtx_setCtx, setCtx_setCtx]; rfl
 
 private theorem swapAr_setCtx (r : Regs) (n : CtxPart) (i : Fin 2) :
     swapArPure (setCtx r n) i = setCtx (swapArPure r i) n := by cases r; rfl
@@ -232,6 +193,9 @@ private theorem swapArp_setCtx (r : Regs) (n : CtxPart) (i : Fin 4) :
     swapArpPure (setCtx r n) i = setCtx (swapArpPure r i) n := by cases r; rfl
 private theorem ssr_setCtx (r : Regs) (n : CtxPart) :
     shadowSwapRegistersPure (setCtx r n) = setCtx (shadowSwapRegistersPure r) n := by cases r; rfl
+private theorem getCtx_swapAr (r : Regs) (i : Fin 2) : getCtx (swapArPure r i) = getCtx r := by cases r; rfl
+private theorem getCtx_swapArp (r : Regs) (i : Fin 4) : getCtx (swapArpPure r i) = getCtx r := by cases r; rfl
+private theorem getCtx_ssr (r : Regs) : getCtx (shadowSwapRegistersPure r) = getCtx r := by cases r; rfl
 
 /-- `ShadowSwap` commutes with every update of the context part … -/
 theorem shadowSwap_setCtx (r : Regs) (n : CtxPart) :
@@ -239,80 +203,229 @@ theorem shadowSwap_setCtx (r : Regs) (n : CtxPart) :
   unfold shadowSwapPure swapAllArArpPure
   simp only [ssr_setCtx, swapAr_setCtx, swapArp_setCtx]
 
-private theorem getCtx_swapAr (r : Regs) (i : Fin 2) : getCtx (swapArPure r i) = getCtx r := by cases r; rfl
-private theorem getCtx_swapArp (r : Regs) (i : Fin 4) : getCtx (swapArpPure r i) = getCtx r := by cases r; rfl
-private theorem getCtx_ssr (r : Regs) : getCtx (shadowSwapRegistersPure r) = getCtx r := by cases r; rfl
-
 /-- … and never changes it. -/
 theorem getCtx_shadowSwap (r : Regs) : getCtx (shadowSwapPure r) = getCtx r := by
   unfold shadowSwapPure swapAllArArpPure
   simp only [getCtx_swapAr, getCtx_swapArp, getCtx_ssr]
 
-/-- the context-part view of `ShadowStore` / `ShadowRestore` -/
+theorem shadowSwap_ctxApply (g : CtxPart → CtxPart) (r : Regs) :
+    shadowSwapPure (ctxApply g r) = ctxApply g (shadowSwapPure r) := by
+  unfold ctxApply; rw [shadowSwap_setCtx, getCtx_shadowSwap]
+
+/-- `ShadowStore`: flags → one-way shadows. -/
 def saveFlagsCtx (n : CtxPart) : CtxPart :=
   { n with
     sh_flm := n.flm, sh_fvl := n.fvl, sh_fe := n.fe, sh_fc0 := n.fc0, sh_fc1 := n.fc1,
     sh_fv := n.fv, sh_fn := n.fn, sh_fm := n.fm, sh_fz := n.fz, sh_fr := n.fr }
+
+/-- `ShadowRestore`: one-way shadows → flags. -/
 def loadFlagsCtx (n : CtxPart) : CtxPart :=
   { n with
     flm := n.sh_flm, fvl := n.sh_fvl, fe := n.sh_fe, fc0 := n.sh_fc0, fc1 := n.sh_fc1,
     fv := n.sh_fv, fn := n.sh_fn, fm := n.sh_fm, fz := n.sh_fz, fr := n.sh_fr }
 
-/-- What `ContextStore` does to the context part. -/
-def storeCtx (n : CtxPart) : CtxPart :=
-  let n : CtxPart := saveFlagsCtx n
+/-- The part of `ContextStore` after `ShadowSwap`. -/
+def storeTail (n : CtxPart) : CtxPart :=
   let n : CtxPart := if n.crep == 0 then { n with repcs := n.repc } else n
   if n.ccnta == 0 then { n with a1s := n.a[1], b1s := n.b[1] }
   else
     let f := Alu.accFlags n.b[1]
     { n with b := n.b.set 1 n.a[1], a := n.a.set 1 n.b[1], fz := f.fz, fm := f.fm, fe := f.fe, fn := f.fn }
 
-/-- What `ContextRestore` does to the context part. -/
-def restoreCtx (n : CtxPart) : CtxPart :=
-  let n : CtxPart := loadFlagsCtx n
+/-- The part of `ContextRestore` after `ShadowSwap`. -/
+def restoreTail (n : CtxPart) : CtxPart :=
   let n : CtxPart := if n.crep == 0 then { n with repc := n.repcs } else n
   if n.ccnta == 0 then { n with a := n.a.set 1 n.a1s, b := n.b.set 1 n.b1s }
   else { n with a := n.a.set 1 n.b[1], b := n.b.set 1 n.a[1] }
 
-private theorem setCtx_congr (r : Regs) (n : CtxPart) (r' : Regs) (h1 : getCtx r' = n)
-    (h2 : setCtx r' (getCtx r) = r) : r' = setCtx r n := by
-  rw [← h1, ← h2, setCtx_setCtx, setCtx_getCtx]
+/-- `ContextStore` as a function on the register file. -/
+def contextStorePure (r : Regs) : Regs :=
+  ctxApply storeTail (shadowSwapPure (ctxApply saveFlagsCtx r))
 
-private theorem saveFlags_eq (x : Regs) : saveFlags x = setCtx x (saveFlagsCtx (getCtx x)) := by cases x; rfl
-private theorem loadFlags_eq (x : Regs) : loadFlags x = setCtx x (loadFlagsCtx (getCtx x)) := by cases x; rfl
+/-- `ContextRestore` as a function on the register file. -/
+def contextRestorePure (r : Regs) : Regs :=
+  ctxApply restoreTail (shadowSwapPure (ctxApply loadFlagsCtx r))
 
-theorem contextStorePure_eq (r : Regs) :
-    contextStorePure r = setCtx (shadowSwapPure r) (storeCtx (getCtx r)) := by
-  unfold contextStorePure
-  simp only []
-  rw [saveFlags_eq, shadowSwap_setCtx]
-  generalize shadowSwapPure r = q
-  have e1 : ∀ n, (setCtx q n).crep = n.crep := fun _ => rfl
-  have e2 : ∀ n, (setCtx q n).ccnta = n.ccnta := fun _ => rfl
-  unfold storeCtx
-  generalize saveFlagsCtx (getCtx r) = n
-  by_cases hc : n.crep = 0 <;> by_cases ha : n.ccnta = 0
-  all_goals (
-    have hc' := hc; have ha' := ha
-    simp only [e1, e2, hc, ha, beq_self_eq_true, if_true]
-    try simp only [show (n.crep == 0) = false from by simpa using hc', show (n.ccnta == 0) = false from by simpa using ha']
-    cases q; cases n; rfl)
+private theorem ctxApply_saveFlags (r : Regs) : ctxApply saveFlagsCtx r =
+    { r with
+      sh_flm := r.flm, sh_fvl := r.fvl, sh_fe := r.fe, sh_fc0 := r.fc0, sh_fc1 := r.fc1,
+      sh_fv := r.fv, sh_fn := r.fn, sh_fm := r.fm, sh_fz := r.fz, sh_fr := r.fr } := by cases r; rfl
 
-theorem contextRestorePure_eq (r : Regs) :
-    contextRestorePure r = setCtx (shadowSwapPure r) (restoreCtx (getCtx r)) := by
-  unfold contextRestorePure
-  simp only []
-  rw [loadFlags_eq, shadowSwap_setCtx]
-  generalize shadowSwapPure r = q
-  have e1 : ∀ n, (setCtx q n).crep = n.crep := fun _ => rfl
-  have e2 : ∀ n, (setCtx q n).ccnta = n.ccnta := fun _ => rfl
-  unfold restoreCtx
-  generalize loadFlagsCtx (getCtx r) = n
-  by_cases hc : n.crep = 0 <;> by_cases ha : n.ccnta = 0
-  all_goals (
-    have hc' := hc; have ha' := ha
-    simp only [e1, e2, hc, ha, beq_self_eq_true, if_true]
-    try simp only [show (n.crep == 0) = false from by simpa using hc', show (n.ccnta == 0) = false from by simpa using ha']
-    cases q; cases n; rfl)
+private theorem ctxApply_loadFlags (r : Regs) : ctxApply loadFlagsCtx r =
+    { r with
+      flm := r.sh_flm, fvl := r.sh_fvl, fe := r.sh_fe, fc0 := r.sh_fc0, fc1 := r.sh_fc1,
+      fv := r.sh_fv, fn := r.sh_fn, fm := r.sh_fm, fz := r.sh_fz, fr := r.sh_fr } := by cases r; rfl
+
+/-- The monadic `contextStore` only touches the register file, as `contextStorePure`. -/
+theorem contextStore_run (c : Core) :
+    contextStore.run c = .ok ((), { c with regs := contextStorePure c.regs }) := by
+  unfold contextStore contextStorePure shadowStore shadowSwap setAccAndFlag setAccFlag setAcc accIndex
+  simp only [run_bind, run_modifyRegs, run_getRegs, except_ok_bind, run_ite, run_pure, ctxApply_saveFlags]
+  generalize shadowSwapPure _ = r'
+  unfold ctxApply storeTail
+  by_cases h1 : r'.crep = 0 <;> by_cases h2 : r'.ccnta = 0 <;> simp_all [getCtx, setCtx]
+
+/-- The monadic `contextRestore` only touches the register file, as `contextRestorePure`. -/
+theorem contextRestore_run (c : Core) :
+    contextRestore.run c = .ok ((), { c with regs := contextRestorePure c.regs }) := by
+  unfold contextRestore contextRestorePure shadowRestore shadowSwap
+  simp only [run_bind, run_modifyRegs, run_getRegs, except_ok_bind, run_ite, run_pure, ctxApply_loadFlags]
+  generalize shadowSwapPure _ = r'
+  unfold ctxApply restoreTail
+  by_cases h1 : r'.crep = 0 <;> by_cases h2 : r'.ccnta = 0 <;> simp_all [getCtx, setCtx]
+
+/-- What a context store followed by a context restore leaves in the context part: everything as it
+was, except that the hidden one-way save slots have taken the saved values. -/
+def savedSlots (n : CtxPart) : CtxPart :=
+  { n with
+    sh_flm := n.flm, sh_fvl := n.fvl, sh_fe := n.fe, sh_fc0 := n.fc0, sh_fc1 := n.fc1,
+    sh_fv := n.fv, sh_fn := n.fn, sh_fm := n.fm, sh_fz := n.fz, sh_fr := n.fr,
+    repcs := if n.crep == 0 then n.repc else n.repcs,
+    a1s := if n.ccnta == 0 then n.a[1] else n.a1s,
+    b1s := if n.ccnta == 0 then n.b[1] else n.b1s }
+
+private theorem vec2_restore (a : Vector U64 2) (x : U64) : (a.set 1 x).set 1 a[1] = a := by
+  apply Vector.ext; intro k hk
+  simp only [Vector.getElem_set]
+  split
+  · subst_vars; rfl
+  · rfl
+
+private theorem ctx_roundtrip (n : CtxPart) :
+    restoreTail (loadFlagsCtx (storeTail (saveFlagsCtx n))) = savedSlots n := by
+  unfold restoreTail loadFlagsCtx storeTail saveFlagsCtx savedSlots
+  by_cases h1 : n.crep = 0 <;> by_cases h2 : n.ccnta = 0 <;> cases n <;> simp_all [vec2_restore]
+
+/-- **Context store followed by context restore** (explicit `cntx s; cntx r`, or interrupt entry
+with context switch followed by `retic`/`reti` with restore) leaves every program-visible register
+and every two-way bank as it was, for all four `(crep, ccnta)` settings; only the hidden one-way
+save slots (`sh_*`, `repcs`, `a1s`, `b1s`) take the saved values. -/
+theorem cntx_r_cntx_s (r : Regs) :
+    contextRestorePure (contextStorePure r) = ctxApply savedSlots r := by
+  unfold contextRestorePure contextStorePure
+  simp only [shadowSwap_ctxApply, shadowSwap_involutive, ctxApply_ctxApply]
+  unfold ctxApply
+  congr 1
+  exact ctx_roundtrip (getCtx r)
+
+/-- … at the level of the monadic instruction handlers. -/
+theorem cntx_r_cntx_s_run (c : Core) :
+    (do contextStore; contextRestore : Exec Unit).run c =
+      .ok ((), { c with regs := ctxApply savedSlots c.regs }) := by
+  simp only [run_bind, contextStore_run, except_ok_bind, contextRestore_run, cntx_r_cntx_s]
+
+
+/-! ## bank exchanges (`banke`, `bankr`) -/
+
+private theorem vec8_swap_back (v : Vector U16 8) (i : Nat) (h : i < 8) (x : U16) :
+    (v.set i x h).set i v[i] h = v := by
+  apply Vector.ext; intro k hk
+  simp only [Vector.getElem_set]
+  split
+  · subst_vars; rfl
+  · rfl
+
+open Teakra.Exec (bkI bkJ bkR4 bkR1 bkR0 bkR7)
+
+/-- `banke` as a function on the register file (same order as the C++). -/
+def bankePure (f : BankFlags) (r : Regs) : Regs :=
+  let r := if f.cfgi then bkI r else r
+  let r := if f.r4 then bkR4 r else r
+  let r := if f.r1 then bkR1 r else r
+  let r := if f.r0 then bkR0 r else r
+  let r := if f.r7 then bkR7 r else r
+  if f.cfgj then bkJ r else r
+
+theorem banke_run (flags : Nat) (c : Core) :
+    (Exec.banke_BankFlags flags).run c = .ok ((), { c with regs := bankePure (BankFlags.decode flags) c.regs }) := by
+  unfold Exec.banke_BankFlags bankePure
+  generalize BankFlags.decode flags = f
+  cases f with | mk cfgi r4 r1 r0 r7 cfgj =>
+  cases cfgi <;> cases r4 <;> cases r1 <;> cases r0 <;> cases r7 <;> cases cfgj <;> rfl
+
+private theorem bkI_inv (r : Regs) : bkI (bkI r) = r := by
+  unfold bkI; cases r; simp only []; split <;> simp_all
+private theorem bkJ_inv (r : Regs) : bkJ (bkJ r) = r := by
+  unfold bkJ; cases r; simp only []; split <;> simp_all
+private theorem bkR4_inv (r : Regs) : bkR4 (bkR4 r) = r := by
+  unfold bkR4; cases r; simp [vec8_swap_back]
+private theorem bkR1_inv (r : Regs) : bkR1 (bkR1 r) = r := by
+  unfold bkR1; cases r; simp [vec8_swap_back]
+private theorem bkR0_inv (r : Regs) : bkR0 (bkR0 r) = r := by
+  unfold bkR0; cases r; simp [vec8_swap_back]
+private theorem bkR7_inv (r : Regs) : bkR7 (bkR7 r) = r := by
+  unfold bkR7; cases r; simp [vec8_swap_back]
+
+private theorem c_I_J (r : Regs) : bkJ (bkI r) = bkI (bkJ r) := by
+  unfold bkI bkJ; cases r; simp only []; (repeat' split) <;> simp_all
+private theorem c_I_R4 (r : Regs) : bkR4 (bkI r) = bkI (bkR4 r) := by
+  unfold bkI bkR4; cases r; simp only []; (repeat' split) <;> simp_all
+private theorem c_I_R1 (r : Regs) : bkR1 (bkI r) = bkI (bkR1 r) := by
+  unfold bkI bkR1; cases r; simp only []; (repeat' split) <;> simp_all
+private theorem c_I_R0 (r : Regs) : bkR0 (bkI r) = bkI (bkR0 r) := by
+  unfold bkI bkR0; cases r; simp only []; (repeat' split) <;> simp_all
+private theorem c_I_R7 (r : Regs) : bkR7 (bkI r) = bkI (bkR7 r) := by
+  unfold bkI bkR7; cases r; simp only []; (repeat' split) <;> simp_all
+private theorem c_R4_J (r : Regs) : bkJ (bkR4 r) = bkR4 (bkJ r) := by
+  unfold bkJ bkR4; cases r; simp only []; (repeat' split) <;> simp_all
+private theorem c_R1_J (r : Regs) : bkJ (bkR1 r) = bkR1 (bkJ r) := by
+  unfold bkJ bkR1; cases r; simp only []; (repeat' split) <;> simp_all
+private theorem c_R0_J (r : Regs) : bkJ (bkR0 r) = bkR0 (bkJ r) := by
+  unfold bkJ bkR0; cases r; simp only []; (repeat' split) <;> simp_all
+private theorem c_R7_J (r : Regs) : bkJ (bkR7 r) = bkR7 (bkJ r) := by
+  unfold bkJ bkR7; cases r; simp only []; (repeat' split) <;> simp_all
+
+private theorem rset_comm (v : Vector U16 8) (i j : Nat) (hi : i < 8) (hj : j < 8) (h : i ≠ j) (x y : U16) :
+    (v.set i x hi).set j y hj = (v.set j y hj).set i x hi := by
+  apply Vector.ext; intro k hk
+  simp only [Vector.getElem_set]
+  repeat' split
+  all_goals first | rfl | omega
+
+private theorem c_R4_R1 (r : Regs) : bkR1 (bkR4 r) = bkR4 (bkR1 r) := by
+  unfold bkR4 bkR1; cases r
+  simp [Vector.getElem_set, rset_comm _ 4 1 (by decide) (by decide) (by decide)]
+private theorem c_R4_R0 (r : Regs) : bkR0 (bkR4 r) = bkR4 (bkR0 r) := by
+  unfold bkR4 bkR0; cases r
+  simp [Vector.getElem_set, rset_comm _ 4 0 (by decide) (by decide) (by decide)]
+private theorem c_R4_R7 (r : Regs) : bkR7 (bkR4 r) = bkR4 (bkR7 r) := by
+  unfold bkR4 bkR7; cases r
+  simp [Vector.getElem_set, rset_comm _ 4 7 (by decide) (by decide) (by decide)]
+private theorem c_R1_R0 (r : Regs) : bkR0 (bkR1 r) = bkR1 (bkR0 r) := by
+  unfold bkR1 bkR0; cases r
+  simp [Vector.getElem_set, rset_comm _ 1 0 (by decide) (by decide) (by decide)]
+private theorem c_R1_R7 (r : Regs) : bkR7 (bkR1 r) = bkR1 (bkR7 r) := by
+  unfold bkR1 bkR7; cases r
+  simp [Vector.getElem_set, rset_comm _ 1 7 (by decide) (by decide) (by decide)]
+private theorem c_R0_R7 (r : Regs) : bkR7 (bkR0 r) = bkR0 (bkR7 r) := by
+  unfold bkR0 bkR7; cases r
+  simp [Vector.getElem_set, rset_comm _ 0 7 (by decide) (by decide) (by decide)]
+
+/-- **A bank exchange applied twice** leaves every register and every two-way bank as it was, for
+every selection of banks. -/
+theorem banke_involutive (f : BankFlags) (r : Regs) : bankePure f (bankePure f r) = r := by
+  unfold bankePure
+  cases f with | mk cfgi r4 r1 r0 r7 cfgj =>
+  cases cfgi <;> cases r4 <;> cases r1 <;> cases r0 <;> cases r7 <;> cases cfgj <;>
+    simp only [Bool.false_eq_true, if_false, if_true, c_I_J, c_I_R4, c_I_R1, c_I_R0, c_I_R7, c_R4_J, c_R1_J,
+      c_R0_J, c_R7_J, c_R4_R1, c_R4_R0, c_R4_R7, c_R1_R0, c_R1_R7, c_R0_R7,
+      bkI_inv, bkJ_inv, bkR4_inv, bkR1_inv, bkR0_inv, bkR7_inv]
+
+/-- `bankr` without operands (all `ar`/`arp` banks) applied twice is the identity; likewise the
+single-bank forms. -/
+theorem bankr_involutive (c : Core) :
+    (do Exec.bankr; Exec.bankr : Exec Unit).run c = .ok ((), c) := by
+  unfold Exec.bankr
+  simp only [run_bind, run_modifyRegs, except_ok_bind, swapAllArArp_involutive]
+
+theorem bankr_Ar_involutive (a : Nat) (c : Core) :
+    (do Exec.bankr_Ar a; Exec.bankr_Ar a : Exec Unit).run c = .ok ((), c) := by
+  unfold Exec.bankr_Ar
+  simp only [run_bind, run_modifyRegs, except_ok_bind, swapAr_involutive]
+
+theorem bankr_Arp_involutive (a : Nat) (c : Core) :
+    (do Exec.bankr_Arp a; Exec.bankr_Arp a : Exec Unit).run c = .ok ((), c) := by
+  unfold Exec.bankr_Arp
+  simp only [run_bind, run_modifyRegs, except_ok_bind, swapArp_involutive]
 
 end Teakra.Interp
